@@ -19,7 +19,7 @@ import (
 	"verif/internal/mon"
 )
 
-const opTimeout = 6 * time.Second
+const opTimeout = 8 * time.Second
 
 // simDev wraps the CLI device so that a reaction's trailing bytes can be withheld until the next
 // write (devsim.Conn.Hold), which the CLI's handler cannot do itself.
